@@ -488,6 +488,7 @@ def run(ctx):
     verdicts = {}
     plans = {}
     model_bad = {}
+    info_runs = {}
     with cf.ThreadPoolExecutor(max_workers=nproc) as ex:
         futs = [ex.submit(validate_chunk, ctx, idx, ep) for idx, ep, rp, rc, err in results if rc == 0]
         for f in futs:
@@ -500,6 +501,8 @@ def run(ctx):
                     verdicts[p["id"]] = p["verdict"]
                     if p.get("model"):
                         model_bad[p["id"]] = p["model"]
+                    if p.get("info"):
+                        info_runs[p["id"]] = p["info"]
                 elif p.get("kind") == "plan":
                     plans[p["id"]] = p
     runs = {}
@@ -613,6 +616,11 @@ def run(ctx):
                 last = e
     if st is None:
         raise last
+    if info_runs:
+        rid = sorted(info_runs)[0]
+        ctx.notes.append("for information, outside the statement (C10 does not quantify over subgraph faults): in %d runs with an injected "
+                         "failure an incremental item could not be applied at pending.path ++ subPath (parent delivered null / nothing, "
+                         "nested child still announced), e.g. %s schedule=%s" % (len(info_runs), by_id[runs[rid]["case"]]["query"], json.dumps(runs[rid]["sched"])))
     if model_bad:
         rid = sorted(model_bad)[0]
         ctx.notes.append("model conformance: %d runs contain a frame that is not a step of Defer.tla (e.g. %s: %s; %s)" % (
@@ -641,6 +649,7 @@ def run(ctx):
         "tree_nonconforming": tree_bad,
         "descriptor_without_group": groups_bad,
         "runs_with_frame_not_a_model_step": len(model_bad),
+        "info_runs_inapplicable_item_under_injected_failure": len(info_runs),
         "binding_selftest": st,
         "runs_rejected_by_class": rejected_runs,
         "samples": samples,
@@ -652,7 +661,7 @@ def run(ctx):
         "the reference semantics is the engine's own answer to the same operation with the directive removed and with if:false (C01 judges that answer)",
         "data universes: the static federationtesting data, optionally with one nullable field name rewritten to null in every subgraph response (same rewrite in all executions)",
         "completion orders are forced at the subgraph transport (a response is released only when the process is quiescent); code between two releases runs unscheduled",
-        "with an injected failure only the stream clauses and path validity are judged (the non-deferred query has a different fetch shape, so no data oracle)",
+        "with an injected failure only the stream-protocol clauses are judged (frames atomic, pending/completed discipline, hasNext, termination); data placement under faults is outside the statement (C07 covers faults) and only reported for information",
         "<= 4 fragments per operation, <= 5 gated exchanges distinguished by priority",
     ]
 
